@@ -44,3 +44,139 @@ def fill(v, rnd, salt=0):
             walk(kv["val"], s + 5 * j + 1)
     walk(v, salt)
     return v
+
+
+# ---------------------------------------------------------------- C13: streams for a target type
+
+SCALARS = ("bool", "string", "int8", "int16", "int32", "int64", "int", "uint8", "uint16", "uint32", "uint64", "uint", "float32", "float64")
+INT_TYS = ["int8", "int16", "int32", "int64", "int", "uint8", "uint16", "uint32", "uint64", "uint", "byte"]
+NAMED_UNDER = {"ZeroT": "struct", "ZeroP": "struct", "FoldT": "struct", "FoldObj": "struct"}
+
+
+def zero_vd(T):
+    k = T["k"]
+    base = dict(k=k, ty="", v=[], i=[], s=[], nil=False, dyn=[], e=[], f=[], m=[])
+    if k in SCALARS:
+        base["k"] = kind_of_leaf(k)
+        base["ty"] = k
+        base["v"] = leaf_value(k, 0, None, 0)
+    elif k in ("slice", "map", "ptr", "iface"):
+        base["nil"] = True
+    elif k == "array":
+        base["e"] = [zero_vd(T["e"][0]) for _ in range(T["n"])]
+    elif k == "struct":
+        base["f"] = [zero_vd(f["t"]) for f in T["f"]]
+    elif k == "named":
+        if T["id"] in NAMED_UNDER:
+            base["k"] = "struct"
+            base["f"] = [zero_vd(dict(k="int"))]
+        else:
+            base["k"] = "opaque"
+    return base
+
+
+def fname(f):
+    return f["tname"].encode() if f["tname"] else f["name"].lower().encode()
+
+
+def skipped(f):
+    return not f["name"][0].isupper() or "dash" in f["opts"] or "omit" in f["opts"]
+
+
+def int_event(rnd, kind):
+    lo, hi = streams.RANGES["uint8" if kind == "byte" else kind]
+    vals = [v for v in streams.BOUNDARY if lo <= v <= hi]
+    v = rnd.choice(vals)
+    tys = [t for t in INT_TYS if streams.RANGES["uint8" if t == "byte" else t][0] <= v <= streams.RANGES["uint8" if t == "byte" else t][1]]
+    return streams.ev("int", rnd.choice(tys), streams.canon(v))
+
+
+def any_value(rnd, depth=0):
+    """Events of an arbitrary value (for interface targets and unknown members)."""
+    r = rnd.random()
+    if depth >= 2 or r < 0.45:
+        c = rnd.randrange(6)
+        if c == 0:
+            return [streams.ev("nil", "nil")]
+        if c == 1:
+            return [streams.ev("bool", "bool", rnd.choice(streams.BOOLS))]
+        if c == 2:
+            return [streams.ev("str", rnd.choice(["str", "strref"]), list(rnd.choice(streams.STRS[:12])))]
+        if c == 3:
+            return [int_event(rnd, rnd.choice(["int8", "int64", "uint64", "uint16"]))]
+        if c == 4:
+            return [streams.ev("f64", "f64", rnd.choice(streams.F64_BITS[:20]))]
+        return [streams.ev("f32", "f32", rnd.choice(streams.F32_BITS[:10]))]
+    if r < 0.7:
+        n = rnd.randrange(3)
+        out = [streams.ev("arrS", "arrS", (), n if rnd.random() < 0.5 else -1, "any")]
+        for _ in range(n):
+            out += any_value(rnd, depth + 1)
+        return out + [streams.ev("arrE", "arrE")]
+    n = rnd.randrange(3)
+    out = [streams.ev("objS", "objS", (), n if rnd.random() < 0.5 else -1, "any")]
+    for j in range(n):
+        out.append(streams.ev("key", rnd.choice(["key", "keyref"]), list(b"u%d" % j)))
+        out += any_value(rnd, depth + 1)
+    return out + [streams.ev("objE", "objE")]
+
+
+def stream_for(T, rnd, extras=True, depth=0):
+    k = T["k"]
+    if k == "named":
+        return any_value(rnd, 2)
+    if k == "bool":
+        return [streams.ev("bool", "bool", rnd.choice(streams.BOOLS))]
+    if k == "string":
+        return [streams.ev("str", rnd.choice(["str", "strref"]), list(rnd.choice(streams.STRS[:14])))]
+    if k == "float64":
+        return [streams.ev("f64", "f64", rnd.choice(streams.F64_BITS[:22]))] if rnd.random() < 0.8 else [streams.ev("f32", "f32", rnd.choice(streams.F32_BITS[:10]))]
+    if k == "float32":
+        return [streams.ev("f32", "f32", rnd.choice(streams.F32_BITS[:12]))]
+    if k in SCALARS:
+        return [int_event(rnd, k)]
+    if k == "ptr":
+        return [streams.ev("nil", "nil")] if rnd.random() < 0.2 else stream_for(T["e"][0], rnd, extras, depth)
+    if k == "iface":
+        return any_value(rnd, depth)
+    if k in ("slice", "array"):
+        n = T["n"] if k == "array" else rnd.randrange(3)
+        et = T["e"][0]
+        bt = "any"
+        if et["k"] in SCALARS and et["k"] not in ("string", "bool") and rnd.random() < 0.3:
+            bt = "any"
+        out = [streams.ev("arrS", "arrS", (), n if rnd.random() < 0.5 else -1, bt)]
+        for _ in range(n):
+            out += stream_for(et, rnd, extras, depth + 1)
+        return out + [streams.ev("arrE", "arrE")]
+    if k == "map":
+        n = rnd.randrange(3)
+        out = [streams.ev("objS", "objS", (), n if rnd.random() < 0.5 else -1, "any")]
+        for j in range(n):
+            out.append(streams.ev("key", rnd.choice(["key", "keyref"]), list(b"m%d" % j)))
+            out += stream_for(T["e"][0], rnd, extras, depth + 1)
+        return out + [streams.ev("objE", "objE")]
+    if k == "struct":
+        members = []
+        for f in T["f"]:
+            if skipped(f):
+                if rnd.random() < 0.3:      # a member named like a never-reported field is an unknown member
+                    members.append((f["name"].lower().encode() + b"_", any_value(rnd, depth + 1)))
+                continue
+            if "inline" in f["opts"] or "squash" in f["opts"]:
+                if f["t"]["k"] == "struct":
+                    for g in f["t"]["f"]:
+                        if not skipped(g) and rnd.random() < 0.7:
+                            members.append((fname(g), stream_for(g["t"], rnd, extras, depth + 1)))
+                continue
+            if rnd.random() < 0.75:
+                members.append((fname(f), stream_for(f["t"], rnd, extras, depth + 1)))
+        if extras:
+            for j in range(rnd.randrange(3)):
+                members.insert(rnd.randrange(len(members) + 1), (b"zz%d" % j, any_value(rnd, depth)))
+        out = [streams.ev("objS", "objS", (), len(members) if rnd.random() < 0.5 else -1, "any")]
+        for name, evs in members:
+            out.append(streams.ev("key", rnd.choice(["key", "keyref"]), list(name)))
+            out += evs
+        return out + [streams.ev("objE", "objE")]
+    raise ValueError(k)
